@@ -230,8 +230,7 @@ inductive CoveredKind : Bool → Bool → OpA → Prop where
   | shimm (last fst : Bool) (hash hex : Bool) (v : Nat) (op : Txt) (ah : Bool) (amt : Nat)
       (hop : lower op ∈ scaleOps) : CoveredKind last fst (.shimm hash hex v op ah amt)
   | cond (last : Bool) (c : Txt) (hc : lower c ∈ condLits) : CoveredKind last false (.cond c)
-  | ident (last fst : Bool) (name : Txt) (hok : IdentNameOk name) :
-      CoveredKind last fst (.ident ⟨false, none, name, none⟩)
+  | ident (last fst : Bool) (i : IdentA) (hok : IdentOk i) : CoveredKind last fst (.ident i)
   | prf (last : Bool) (t g p : Txt) (ht : lower t ∈ prfT) (hg : lower g ∈ prfG) (hp : lower p ∈ prfP) :
       CoveredKind last true (.prf t g p)
   | mem (fst : Bool) (m : MemA) (hm : MemOk m) : CoveredKind true fst (.mem m)
@@ -248,7 +247,7 @@ theorem coveredKind_covered (last fst : Bool) (o : OpA) (h : CoveredKind last fs
   | flt _ _ hash neg ip fp e f hok => exact covered_flt last fst hash neg ip fp e f hok
   | shimm _ _ hash hex v op ah amt hop => exact covered_shimm last fst hash hex v op ah amt hop
   | cond _ c hc => exact covered_cond last c hc
-  | ident _ _ name hok => exact covered_ident last fst name hok
+  | ident _ _ i hok => exact covered_identFull last fst i hok
   | prf _ t g p ht hg hp => exact covered_prf last t g p ht hg hp
   | mem _ m hm => exact covered_mem fst m hm
 
@@ -262,20 +261,17 @@ theorem opsCovered_of_kinds (fst : Bool) (os : List OpA) (h : KindsOk fst os) : 
   | nil => trivial
   | cons o os ih => exact ⟨coveredKind_covered _ fst o h.1, ih false h.2⟩
 
-/-
-  TODO-FULL  a64_roundtrip: for every instruction AST `a` of the property's domain (`InstrOk a`, operands
-  in valid order with every kind of `Spec.A64.OpA`) and every layout,
-      parseLine (render a gaps) = .ok (expectLine a).
-  Proved below for the operand kinds of `CoveredKind`, which are all kinds of `OpA` except identifiers
-  written with a relocation (`:lo12:name`), an offset (`name+8`) or `#`, and identifier offsets inside
-  memory references (`[x0, #:lo12:name]`) — the design lists relocations as outside the compared AST.
-  The general machinery (`roundtrip_covered`) is independent of the kinds: a further kind needs only its
-  `CoveredOp` lemma (see `Lemmas/A64Vector.lean` for a single-piece and `Lemmas/A64MemOp.lean` for a
-  multi-piece kind).
--/
+/-- **a64_roundtrip** (full statement): ∀ instruction ASTs of the specification's domain — `InstrOk a`
+    (mnemonic of alphanumerics and dots not starting with a dot, at most five operand slots, comment words
+    of printable characters) and `KindsOk true a.ops` (every operand of one of the kinds of `Spec.A64.OpA`,
+    well-formed, in valid order: prefetch operation only first, condition code not first, memory reference
+    only last) — and ∀ layouts (blanks and tabs in every gap, also inside braces and brackets; at least one
+    after the mnemonic and between comment words):
 
-/-- **a64_roundtrip_partial**: ∀ mnemonics, ∀ operand lists of up to five operands in valid order
-    (prefetch operation first, memory reference last, no condition code first) whose kinds are
+        parseLine (render a gaps) = ok (expectLine a)
+
+    i.e. the rendered line is classified as an instruction and mnemonic, every operand and the comment are
+    recovered exactly as written.  The operand kinds (`CoveredKind`):
       * scalar registers `[xwbhsdq]N` in either case (∀ N), the aliases `sp wsp xzr wzr` in either case,
       * vector / SVE registers `vN`, `vN.<lanes><shape>`, `zN.<shape>`, `…[idx]` (∀ N, lanes, shape, idx),
       * predicate registers `pN`, `pN/z`, `pN/m`, `pN.<shape>` (either case),
@@ -284,15 +280,13 @@ theorem opsCovered_of_kinds (fst : Bool) (os : List OpA) (h : KindsOk fst os) : 
       * integer immediates (∀ values; decimal or hexadecimal with lower/upper-case digits; with or
         without `#`; signed), floating-point immediates (mantissa, optional signed exponent, optional
         `f`), shifted immediates `#imm, lsl #n` (value `imm·2^n`, ∀ n),
-      * condition codes (the 17 codes in any case), label names (`IdentNameOk`: not spelled like a
-        register, alias, condition code, shift operator or prefetch type), prefetch operations,
-      * memory references `[base]`, `[base, #imm]`, `[base, index]`, `[base, index, op]`,
-        `[base, index, op #n]` with `op ∈ lsl uxtw sxtw sxtx` in any case (∀ n: scale `2^n`), base and
-        index scalar registers or sp/zr aliases, optionally `!` or a post-index immediate,
-    ∀ layouts — blanks and tabs in every gap, also inside the brackets —, ∀ trailing comments:
-    the rendered line is classified as an instruction, and mnemonic, operands and comment are recovered
-    exactly as written. -/
-theorem a64_roundtrip_partial (a : InstrA) (gaps : List Txt) (hok : InstrOk a)
+      * condition codes (the 17 codes in any case), prefetch operations,
+      * identifiers: label names (not spelled like a register, alias, condition code, shift operator or
+        prefetch type), optionally with relocation `:lo12:`, offset `+n` / `+0xh` and `#`,
+      * memory references `[base]`, `[base, #imm]`, `[base, #:rel:name]`, `[base, index]`,
+        `[base, index, op]`, `[base, index, op #n]` with `op ∈ lsl uxtw sxtw sxtx` in any case (∀ n: scale
+        `2^n`), base and index scalar registers or sp/zr aliases, optionally `!` or a post-index immediate. -/
+theorem a64_roundtrip (a : InstrA) (gaps : List Txt) (hok : InstrOk a)
     (hkinds : KindsOk true a.ops) (hl : LayoutOk (linePieces a) gaps) :
     parseLine (render a gaps) = .ok (expectLine a) :=
   roundtrip_covered a gaps hok (opsCovered_of_kinds true a.ops hkinds) hl
